@@ -87,6 +87,12 @@ def gauss_target_vec():
     normal(z[0], math.sqrt(1.0 / 3.0)) @ "obs"
 
 
+@gen
+def gauss_target2():
+    z = D.multivariate_normal(jnp.zeros(2), jnp.eye(2)) @ "x"
+    normal(z[0] + 0.5 * z[1], math.sqrt(1.0 / 3.0)) @ "obs"
+
+
 def run(tier, argv):
     chk = Check("C17", tier)
     res = tlc.run("VI", "VI.cfg", workers=1, timeout=900)
@@ -197,6 +203,26 @@ def run(tier, argv):
                         v = float(E.estimate(params))
                         if abs(v - logev) > 5e-5:
                             chk.violation(ck, f"at the exact posterior the objective is {v} for noise {eps}, log p(x) = {logev}", {})
+                    except Exception as ex:
+                        chk.violation(ck, f"raised {type(ex).__name__}: {str(ex).splitlines()[0][:140] if str(ex) else ''}", {})
+            # a 2-d target with a NON-diagonal Cholesky factor: the draw must be mean + L eps and the objective log p(y, z) - log q(z)
+            if yf == 1.0:
+                L = np.array([[0.8, 0.0], [0.3, 0.6]])
+                mean = np.array([0.2, -0.4])
+                fam2 = full_covariance_normal_family(2, "reparam")
+                E2 = elbo_factory(gauss_target2, fam2, cons)
+                for eps2 in ((0.0, 0.0), (1.0, -0.5), (-1.5, 2.0), (0.5, 0.5)):
+                    ck = f"elbo-gauss-2d|eps={eps2}"
+                    chk.case(ck)
+                    chk.validated(1)
+                    adev.multivariate_normal = _ZeroNoise(np.asarray(eps2, dtype=np.float32))
+                    z = mean + L @ np.asarray(eps2)
+                    logp = -0.5 * float(z @ z) - math.log(2 * math.pi) + (-0.5 * math.log(2 * math.pi / 3.0) - 1.5 * (yf - z[0] - 0.5 * z[1]) ** 2)
+                    logq = -0.5 * float(np.dot(eps2, eps2)) - math.log(0.8 * 0.6) - math.log(2 * math.pi)
+                    try:
+                        v = float(E2.estimate({"mean": jnp.asarray(mean, dtype=jnp.float32), "chol_cov": jnp.asarray(L, dtype=jnp.float32)}))
+                        if abs(v - (logp - logq)) > 2e-4:
+                            chk.violation(ck, f"objective {v} for noise {eps2}, expected log p(y, mean + L eps) - log q = {logp - logq}", {})
                     except Exception as ex:
                         chk.violation(ck, f"raised {type(ex).__name__}: {str(ex).splitlines()[0][:140] if str(ex) else ''}", {})
             # away from the posterior the expectation lies below log p(x): seeded mean over real noise
